@@ -42,6 +42,23 @@ Theorem retained_replicates : ∀ t r k,
 Proof. exact merge_ret1_abs. Qed.
 Print Assumptions retained_replicates.
 
+From Wasp Require Import Model.IdPool Model.Mount Model.Node.
+(** on a client connection (node model; regression example): the replay follows the SUBACK,
+    carries the retain flag and the subscription's QoS, once per matching topic per filter; the
+    live copy is not flagged; a cleared topic is not replayed; a filter that matches nothing does
+    not stop the replay of the next filter *)
+Example c07_replay :
+  let run := fold_left (λ st o, let r := step [] st.1 o in (r.1, (st.2 ++ [r.2])%list)) in
+  let ops := [EConnect 0%nat "live" "cl" "" "" 60 None 10; ESubscribe "live" 1 [("#", 0)] 20;
+              EConnect 0%nat "pub" "cp" "" "" 60 None 30;
+              EPublish "pub" (Publish "a" "1" 0 true) false 0 40; EPublish "pub" (Publish "a/b" "2" 0 true) false 0 50;
+              EPublish "pub" (Publish "a" "" 0 true) false 0 60;
+              EConnect 0%nat "late" "cx" "" "" 60 None 70; ESubscribe "late" 2 [("nothing/here", 0); ("a/#", 0)] 80] in
+  let o := (run ops (cnew 1%nat, [])).2 in
+  nth 3%nat o [] = [Appended 0%nat "_default/a" "1" 0 false; Deadline "pub" 120000; Out "live" (OPublish "a" "1" 0 false false 0)]
+  ∧ nth 7%nat o [] = [Out "late" (OSubAck 2 [0; 0]); Out "late" (OPublish "a/b" "2" 0 true false 0); Deadline "late" 120000].
+Proof. vm_compute. done. Qed.
+
 Example c07_history :
   let os := [DRetSet (Publish "mp/a" "1" 0 true) 10; DRetSet (Publish "mp/a/b" "2" 1 true) 11; DRetSet (Publish "mp/a" "3" 0 true) 12;
              DRetDelete "mp/a/b" 13; DRetSet (Publish "mp/b" "4" 0 true) 14] in
